@@ -97,6 +97,53 @@ def drains_until_empty(ctx, r, key, fnp, params, recv_call, other_exits=()):
                    why='the receivers are registered edge-triggered: what is left in the queue when the handler returns is not announced again')
 
 
+def setters_and_ctors(ctx, r, adt, consts=None):
+    """Builder setters and constructor helpers of a public argument struct: every function of `adt` that returns one by value
+    puts each parameter named like a field into that field and into no other; a setter keeps the rest of `self`; the fields
+    a constructor fills with constants are tabled in `consts` ({fn name: {field: shown value}})."""
+    import sym as S
+    a = ctx.adts.get(adt)
+    if a is None or not a.get('variants'):
+        r.check('setters:%s' % adt.split('::')[-1], False, None, built='type not found')
+        return 0
+    fields = [f['name'] for f in a['variants'][0]['fields']]
+    n = 0
+    for p_, fn_ in sorted(ctx.fns.items()):
+        if 'hir' not in fn_ or fn_.get('cfg_test') or fn_.get('impl_trait') or S.norm_path(fn_.get('impl_self') or '') != adt:
+            continue
+        if S.norm_path(fn_.get('output') or '') != adt:
+            continue
+        prms = [(q.get('name') if q.get('k') == 'Bind' else None) for q in fn_.get('params', [])]
+        if None in prms:
+            continue
+        ev = ctx.evaluator(0)
+        try:
+            t = ev.run_fn(p_, [('var', nm, -(i + 1)) for i, nm in enumerate(prms)])
+        except Exception as e:  # noqa
+            t = None
+        nm_ = p_.split('::')[-1]
+        site = ctx.site(p_)
+        if t is None or t[0] != 'struct' or t[1] != adt:
+            if [x for x in prms if x in fields]:
+                r.check('%s:literal' % nm_, False, site, built=S.show(t) if t is not None else None, expected='one %s literal' % adt.split('::')[-1])
+            continue
+        fv = {k: S.show(v) for k, v in t[2]}
+        base = S.show(t[3]) if t[3] is not None else None
+        for q in prms:
+            if q in fields:
+                n += 1
+                r.check('%s:sets:%s' % (nm_, q), fv.get(q) == q, site, built={q: fv.get(q)}, expected={q: q}, why='the argument goes into the field of its name')
+        crossed = {k: v for k, v in fv.items() if v in prms and v != k}
+        r.check('%s:no-crossed-field' % nm_, not crossed, site, built=crossed, expected={}, why='no field takes the argument meant for another')
+        if 'self' in prms:
+            r.check('%s:keeps-rest' % nm_, base == 'self', site, built=base, expected='..self')
+        elif consts and nm_ in consts:
+            want = consts[nm_]
+            r.check('%s:constants' % nm_, base is None and {k: fv.get(k) for k in want} == want, site, built={k: fv.get(k) for k in want}, expected=want)
+        n += 1
+    return n
+
+
 _SUB_CACHE = {}
 
 
